@@ -184,6 +184,7 @@ pub fn part_b_outgoing(check: &Check, args: &Args) {
 pub fn part_a_received(check: &Check, args: &Args) {
     // real kad node in the network simulator, PUT_VALUE sent by a raw peer (see kadnet.rs)
     crate::kadnet::c42_part_a(check, args);
+    crate::kadnet::c42_part_c(check, args);
 }
 
 pub fn run(args: &Args) -> i32 {
